@@ -13,6 +13,7 @@ import (
 	"runtime"
 	"strconv"
 	"sync"
+	"time"
 )
 
 type replayVar struct {
@@ -179,6 +180,9 @@ func Assert(c bool, label string) {
 // Cover is a reachability witness: some explored path must make c true.
 func Cover(label string, c bool) {}
 
+// Native reports whether the harness runs as ordinary compiled code (true) or under the executor (false).
+func Native() bool { return true }
+
 // CryptoClient, when set, is what the executor hands out wherever the code under test
 // instantiates a crypto plug-in (crypto/client.CreateCryptoClient*). Natively it is ignored:
 // harnesses that use it are replayed by the executor.
@@ -208,9 +212,10 @@ func Symbolic() bool { return false }
 // initialises packages lazily (natively all imports are initialised already).
 func InitPkg(path string) {}
 
-// SetClock / AdvanceClock drive the executor's stub clock (no native effect).
+// SetClock / AdvanceClock drive the executor's stub clock. Natively SetClock has no
+// effect and AdvanceClock lets that much real time pass.
 func SetClock(ns int64)     {}
-func AdvanceClock(ns int64) {}
+func AdvanceClock(ns int64) { time.Sleep(time.Duration(ns)) }
 
 // Dyadic returns an arbitrary float64 of the form n / 2^fracBits with
 // |value| <= maxAbs. Sums of a few such values are exact in binary64, so the
